@@ -74,3 +74,13 @@ Example C10_checker_rejects :
   balanced (inst 3 [PReadAll]) = false /\ balanced (inst 3 [PRLock; PWrite; PRUnlock]) = false
   /\ balanced (inst 3 [PLock; PWrite; PUnlock]) = true /\ length all_ops = 256%nat.
 Proof. vm_compute. repeat split. Qed.
+
+(* peer lookups over the wire: the server answers with its own look-up of exactly the requested key, and the client has every answer
+   decoded into a record made FRESH in that call (regenerated from ipfix/memcache_rpc.go on every run, Gen/Rpc.v): an answer never
+   lives in storage that a later answer is decoded into - the templates a peer fetch puts into the cache are not written to again
+   outside the shard lock, and no answer is a mixture of two definitions (the model of the fetch and its theorems are C04's) *)
+From VF Require Gen.Rpc.
+Theorem C10_peer_answers_are_fresh_records :
+  In ("client_reply", "fresh")%string Gen.Rpc.rpc_facts /\ In ("server_get", "*resp = r.mCache.retrieve(req.ID, req.IP)")%string Gen.Rpc.rpc_facts.
+Proof. unfold Gen.Rpc.rpc_facts. cbn [In]. split; auto 10. Qed.
+Print Assumptions C10_peer_answers_are_fresh_records.
